@@ -10,6 +10,15 @@ import (
 // VerifDir is where MANIFEST.json, evidence/ and known_findings.json live.
 var VerifDir = "/verif"
 
+// OutDir is where evidence/ and replays are written (VERIF_OUT overrides it during development,
+// e.g. when a scratch copy of the library is evaluated in parallel).
+var OutDir = func() string {
+	if d := os.Getenv("VERIF_OUT"); d != "" {
+		return d
+	}
+	return VerifDir
+}()
+
 type Evidence struct {
 	PropertyID  string                 `json:"property_id"`
 	Tier        string                 `json:"tier"`
@@ -26,7 +35,7 @@ func WriteEvidence(ev *Evidence, start time.Time) error {
 	if ev.Level == "" {
 		ev.Level = "model_checking"
 	}
-	dir := filepath.Join(VerifDir, "evidence")
+	dir := filepath.Join(OutDir, "evidence")
 	if err := os.MkdirAll(dir, 0o755); err != nil {
 		return err
 	}
